@@ -90,8 +90,31 @@ pub fn check_frame(r: &mut Report, bytes: &[u8], origin: &str) -> bool {
         timestamp: 1_700_000_000.25,
         frame: bytes.to_vec(),
         message: Some(msg.clone()),
-        metadata: vec![SensorMetadata { system_timestamp: 1_700_000_000.25, gnss_timestamp: None, nanoseconds: Some(12), rssi: Some(-12.5), serial: 42, name: Some("x".into()) }],
-        decode_time: None,
+        // optional fields present or absent, a receiver name that needs escaping, one or several receptions
+        metadata: {
+            let k = fnv(bytes);
+            let mut v = vec![SensorMetadata {
+                system_timestamp: 1_700_000_000.25,
+                gnss_timestamp: if k & 1 == 0 { None } else { Some(1_700_000_000.125) },
+                nanoseconds: if k & 2 == 0 { Some(12) } else { None },
+                rssi: if k & 4 == 0 { Some(-12.5) } else { None },
+                serial: if k & 8 == 0 { 42 } else { u64::MAX },
+                name: match (k >> 4) % 4 {
+                    0 => None,
+                    1 => Some("x".into()),
+                    2 => Some("rx \"north\"\n\tline2 \\ é".into()),
+                    _ => Some(String::new()),
+                },
+            }];
+            if k & 0x100 != 0 {
+                v.push(SensorMetadata { system_timestamp: 1_700_000_000.5, gnss_timestamp: None, nanoseconds: None, rssi: None, serial: 7, name: None });
+            }
+            if k & 0x600 == 0x600 {
+                v.clear();
+            }
+            v
+        },
+        decode_time: if fnv(bytes) & 0x800 == 0 { None } else { Some(0.000_125) },
     };
     match guarded(|| serde_json::to_string(&tm)) {
         Err((loc, m)) => {
@@ -296,6 +319,11 @@ pub fn run(a: &Args, r: &mut Report) {
         let v: serde_json::Value = serde_json::from_str(&std::fs::read_to_string(p).unwrap()).unwrap();
         check_frame(r, &hex::decode(v["replay"]["frame"].as_str().unwrap()).unwrap(), "replay");
         return;
+    }
+    // one shard in four serialises with the decode time switched on (the setting is process-wide and can be made once)
+    if a.shard % 4 == 1 {
+        rs1090::decode::serialize_config(true);
+        r.class("config:decode_time-serialised");
     }
     let mut rng = Rng::new(a.seed, a.shard, "C07");
     let sh = shapes();
